@@ -70,7 +70,7 @@ func applyKind(e *Entry, kind string) {
 func genTable(t *rapid.T, small bool) []Entry {
 	profiles := []string{"counter", "counter", "ascii", "binary", "longprefix", "bigvalues", "bigvalues", "mixed", "edge"}
 	if small {
-		profiles = []string{"counter", "ascii", "binary", "longprefix", "bigvalues", "mixed", "edge", "edge"}
+		profiles = []string{"counter", "counter", "ascii", "binary", "longprefix", "bigvalues", "bigvalues", "mixed", "edge"}
 	}
 	profile := rapid.SampledFrom(profiles).Draw(t, "profile")
 	mix := kindMix{
@@ -157,6 +157,9 @@ func genTable(t *rapid.T, small bool) []Entry {
 			hi = 6
 		}
 		n := rapid.IntRange(2, hi).Draw(t, "n")
+		if !small && rapid.IntRange(0, 5).Draw(t, "manyblocks") == 0 {
+			n = rapid.IntRange(25, 48).Draw(t, "n2") // more than 16 blocks: the index block gets a second restart interval
+		}
 		big := rapid.OneOf(rapid.IntRange(20000, 70000), rapid.IntRange(60000, 66000), rapid.IntRange(1, 64))
 		if !small && ev.Tier() == "thorough" {
 			big = rapid.OneOf(rapid.IntRange(20000, 70000), rapid.IntRange(60000, 66000), rapid.IntRange(1, 64), rapid.IntRange(100000, 1500000))
